@@ -2,18 +2,18 @@ package main
 
 import (
 	"fmt"
-	"strings"
+	"go/types"
 
 	"golang.org/x/tools/go/ssa"
 )
 
 func init() {
 	register(&propDef{
-		id: "C26", run: runC26, minOblig: 15,
-		explanation: "Decides, for the four SSH packet readers (stream+MAC, AES-GCM, CBC, chacha20-poly1305): (authenticity) every return of a non-nil payload lies behind the success edge of the authenticity check — subtle.ConstantTimeCompare(computed MAC, received MAC) == 1 (with the path assumption mac != nil; the unauthenticated 'none' mode is the only path allowed to skip it), aead.Open's nil error, poly1305.Verify == true — and for chacha20-poly1305 the payload decryption call lies behind it too; (no panic on wire values) for a grid of boundary values of the wire length, padding length, MAC size and block size (0, 1, 4, 5, 255, maxPacket±1, 2^31, 2^32-1 …) the reader's guard conditions are partially evaluated with Go's fixed-width arithmetic and, at every slice expression over the packet buffer that remains reachable, low <= high <= buffer length must evaluate true (the buffer length being the size last stored into the buffer field on that path); every reachable make() size must be <= maxPacket + 4 + 64 + 16; (framing) connectionState.readPacket contains no explicit panic and turns an empty payload into an error. NOT decided: cryptographic unforgeability; arithmetic outside the evaluated grid (the grid contains every constant appearing in the guards ±1).",
-		assumptions: []string{"cipher.AEAD.Open returns len(ciphertext)-tagSize bytes", "hash.Hash.Size() in {16,20,32,64} for the configured MACs", "int is 64-bit"},
+		id: "C26", run: runC26, minOblig: 23,
+		explanation: "Decides by abstract interpretation (not by code shape) what the four SSH packet readers — (*streamPacketCipher|*gcmCipher|*cbcCipher|*chacha20Poly1305Cipher).readCipherPacket, with every helper of package ssh interpreted in place — do on arbitrary wire values. Each reader is evaluated with Go's fixed-width arithmetic for a grid of boundary values of the wire length (0, 1, 4, 5, 255, maxPacket±1, 2^31, 2^32-1 …), the padding length, the MAC size (0 = no MAC), the EtM flag, the block size, a buffer that has to grow (capacity as left by the constructor) or is large enough, and with the OUTCOME of the authenticity primitive as an input (passing / failing); byte slices are modelled by (storage object, offset, length, capacity) — objects are struct fields, local arrays and make() results, never names of locals, parameters or receivers — and every buffer filled from the connection knows which position of the packet image it holds (copy, XORKeyStream, CryptBlocks, aead.Open carry it along), so the wire length and padding length are recognised wherever and however they are decoded (encoding/binary, shifts, a loop). Rules: (auth) when subtle.ConstantTimeCompare / hmac.Equal of computed and received MAC, aead.Open or poly1305.Verify fails, or when a read from the connection fails, no payload is returned, and every accepted packet of an authenticated mode passed such a check (the unauthenticated 'none' mode is the only one allowed to skip it); (auth-args) that check is on a computed MAC (hash.Sum / poly1305.Sum over length and ciphertext) and the MAC bytes received right behind the packet, resp. opens the whole received buffer with the 4-byte length as additional data, resp. verifies the received tag over length and ciphertext; (maxpacket) every declared length above maxPacket is rejected; (bounds / no panic on wire values) at every slice expression low <= high <= capacity of the sliced storage (max for 3-index slices), every index and encoding/binary access is inside its operand, every make()/Grow/append size and every read from the connection is <= maxPacket + 4 + 64 + 16 (+80), XORKeyStream/CryptBlocks get a destination at least as long as the source and CryptBlocks whole blocks, and no explicit panic is reached; (payload) an accepted packet returns exactly bytes [5 : 4+length-padding) of what was received; (verify-then-decrypt, chacha20-poly1305) packet content is decrypted only behind the successful tag verification and the returned payload is; (framing) connectionState.readPacket and the private helpers it is made of contain no explicit panic, and interpreted with the cipher returning an empty payload (with and without error) it returns a non-nil error without indexing the payload. A branch or size that does not evaluate over the grid is reported as undecided, never passed. NOT decided: cryptographic unforgeability; arithmetic outside the evaluated grid (the grid contains every constant appearing in the guards ±1); what MAC input precedes the comparison (C25); failure of library calls other than reads from the connection and the authenticity primitives (assumed to succeed).",
+		assumptions: []string{"cipher.AEAD.Open returns len(ciphertext)-16 bytes appended to its destination and fails on shorter input", "hash.Hash.Size() in {16,20,32,64} for the configured MACs; cbcCipher.macSize equals it", "cipher block size in {8,16}", "packet buffers are only ever replaced by larger ones (capacity >= what the constructor allocated)", "int is 64-bit"},
 	})
-	tech("C26", "must-cross CFG rules on the authenticity checks + finite-domain evaluation of guards and slice-bound obligations (fixed-width arithmetic) over a boundary-value grid")
+	tech("C26", "path-sensitive abstract interpretation of the packet readers (helpers inlined; slices as storage/offset/length/capacity; wire-image provenance; error values with dynamic types) over a boundary-value grid with the authenticity primitive's outcome as an input; fixed-width arithmetic")
 }
 
 func runC26(c *Ctx) {
@@ -24,370 +24,339 @@ func runC26(c *Ctx) {
 	}
 	lengths := []int64{0, 1, 2, 3, 4, 5, 6, 7, 8, 11, 12, 15, 16, 17, 20, 28, 32, 255, 256, 257, 260, 1024, maxPacket - 4, maxPacket - 1, maxPacket, maxPacket + 1, maxPacket + 12, 1<<20 - 4, 1<<31 - 4, 1 << 31, 1<<32 - 20, 1<<32 - 5, 1<<32 - 4, 1<<32 - 1}
 	pads := []int64{0, 1, 3, 4, 5, 8, 15, 16, 250, 254, 255}
+	// one packet never needs more than length field + maxPacket + MAC/tag (+ slack)
+	limit := maxPacket + 4 + 64 + 16 + 80
+	big := maxPacket + 4096 // capacity of a buffer that never has to grow for a legal packet
 
-	// ---------------- stream cipher
-	if f := c.fn("ssh", "(*streamPacketCipher).readCipherPacket"); f != nil {
-		// authenticity (assume mac != nil)
-		e := newEnv()
-		e.bindNilTests(f, func(v ssa.Value) bool { return isField(v, "streamPacketCipher", "mac") }, false)
-		ctc := callsNamed(f, "crypto/subtle.ConstantTimeCompare")
-		c26Auth(c, f, "(*streamPacketCipher).readCipherPacket", e, callSuccess(ctc, 0, isOne), "ConstantTimeCompare(macResult, received MAC) == 1")
-		c26MacArgs(c, f, "(*streamPacketCipher).readCipherPacket", ctc)
-		// bounds grid
-		var lengthV ssa.Value
-		for _, ci := range calls(f, func(n string) bool { return strings.HasSuffix(n, ").Uint32") }) {
-			lengthV = callValue(ci)
+	initCap := c26initCaps(c, "ssh")
+
+	readers := []c26reader{
+		{name: "(*streamPacketCipher).readCipherPacket", macs: []int64{0, 16, 20, 32, 64}, etm: true},
+		{name: "(*gcmCipher).readCipherPacket", aead: true},
+		{name: "(*cbcCipher).readCipherPacket", macs: []int64{0, 20, 32}, bss: []int64{8, 16}},
+		{name: "(*chacha20Poly1305Cipher).readCipherPacket", aead: true, decryptAfterVerify: true},
+	}
+	for _, rd := range readers {
+		f := c.fn("ssh", rd.name)
+		if f == nil {
+			continue
 		}
-		var sizeCall ssa.Value
-		for _, ci := range calls(f, nameIs("invoke:(hash.Hash).Size")) {
-			sizeCall = callValue(ci)
+		if len(f.Params) != 3 || f.Signature.Results().Len() != 2 {
+			c.fail("anchor", "ssh."+rd.name, f, "not a packet reader (receiver, sequence number, io.Reader) ([]byte, error)")
+			continue
 		}
-		if lengthV == nil || sizeCall == nil {
-			c.fail("C26.bounds", "(*streamPacketCipher).readCipherPacket", f, "anchors not found: wire length / mac size")
-		} else {
-			b := &boundsCtx{fn: f, tracked: func(p string) bool { return p == "s.packetData" }}
-			n := 0
-			for _, L := range lengths {
-				for _, P := range pads {
-					for _, M := range []int64{0, 16, 20, 32, 64} {
-						e := newEnv()
-						e.bind(lengthV, L)
-						e.bindIndexLoads(f, func(base ssa.Value) bool { return accessPath(base) == "s.prefix" }, 4, P)
-						e.bind(sizeCall, M)
-						e.bindNilTests(f, func(v ssa.Value) bool { return isField(v, "streamPacketCipher", "mac") }, M == 0)
-						allInstrs(f, func(in ssa.Instruction) {
-							if cc, ok := in.(*ssa.Call); ok && calleeName(&cc.Call) == "builtin:cap" {
-								e.bind(cc, 0) // force the allocation path: sizes flow through make
+		acc := &c26acc{}
+		macs, bss := rd.macs, rd.bss
+		if len(macs) == 0 {
+			macs = []int64{0}
+		}
+		if len(bss) == 0 {
+			bss = []int64{0}
+		}
+		for _, L := range lengths {
+			for _, P := range pads {
+				for _, M := range macs {
+					for _, BS := range bss {
+						for etm := int64(0); etm < 2; etm++ {
+							if etm == 1 && !(rd.etm && M > 0) {
+								continue
 							}
-						})
-						e.solve(f)
-						b.e = e
-						b.check(fmt.Sprintf("length=%d padding=%d macSize=%d", L, P, M))
-						c26Make(c, f, e, maxPacket, b, fmt.Sprintf("length=%d padding=%d macSize=%d", L, P, M))
-						n++
-					}
-				}
-			}
-			c26Report(c, "(*streamPacketCipher).readCipherPacket", f, b, n)
-		}
-	}
-	// ---------------- GCM
-	if f := c.fn("ssh", "(*gcmCipher).readCipherPacket"); f != nil {
-		open := calls(f, nameIs("invoke:(crypto/cipher.AEAD).Open"))
-		c26Auth(c, f, "(*gcmCipher).readCipherPacket", newEnv(), callSuccess(open, -1, isNil), "aead.Open(...) error == nil")
-		// AAD is the 4-byte prefix, ciphertext is the buffer
-		if len(open) == 1 {
-			a := open[0].Common().Args
-			c.check(accessPath(sliceBase(a[3])) == "c.prefix" && accessPath(sliceBase(a[2])) == "c.buf", "C26.auth-args", "(*gcmCipher).readCipherPacket Open(buf, aad=prefix)", open[0],
-				"the length prefix is authenticated as additional data and the whole received buffer is opened", "aead.Open is not given the received buffer with the length prefix as additional data")
-		}
-		var lengthV, plain ssa.Value
-		for _, ci := range calls(f, func(n string) bool { return strings.HasSuffix(n, ").Uint32") }) {
-			lengthV = callValue(ci)
-		}
-		if len(open) == 1 {
-			for _, v := range resultN(open[0].(*ssa.Call), 0) {
-				plain = v
-			}
-		}
-		tag, _ := pkgConstInt(c, "ssh", "gcmTagSize")
-		if lengthV == nil || plain == nil {
-			c.fail("C26.bounds", "(*gcmCipher).readCipherPacket", f, "anchors not found")
-		} else {
-			b := &boundsCtx{fn: f, tracked: func(p string) bool { return p == "c.buf" }}
-			n := 0
-			for _, L := range lengths {
-				for _, P := range pads {
-					e := newEnv()
-					e.bind(lengthV, L)
-					e.bindLen(f, plain, L)
-					e.bindIndexLoads(f, func(base ssa.Value) bool { return base == plain }, 0, P)
-					for _, ev := range errResult(open[0].(*ssa.Call)) {
-						e.bindNilTests(f, func(v ssa.Value) bool { return v == ev }, true)
-					}
-					allInstrs(f, func(in ssa.Instruction) {
-						if cc, ok := in.(*ssa.Call); ok && calleeName(&cc.Call) == "builtin:cap" {
-							e.bind(cc, 0)
-						}
-					})
-					e.solve(f)
-					b.e = e
-					b.lenOver = map[ssa.Value]int64{plain: L}
-					b.check(fmt.Sprintf("length=%d padding=%d", L, P))
-					c26Make(c, f, e, maxPacket+tag, b, fmt.Sprintf("length=%d", L))
-					n++
-				}
-			}
-			c26Report(c, "(*gcmCipher).readCipherPacket", f, b, n)
-		}
-	}
-	// ---------------- CBC
-	if f := c.fn("ssh", "(*cbcCipher).readCipherPacketLeaky"); f != nil {
-		e := newEnv()
-		e.bindNilTests(f, func(v ssa.Value) bool { return isField(v, "cbcCipher", "mac") }, false)
-		ctc := callsNamed(f, "crypto/subtle.ConstantTimeCompare")
-		c26Auth(c, f, "(*cbcCipher).readCipherPacketLeaky", e, callSuccess(ctc, 0, isOne), "ConstantTimeCompare(macResult, received MAC) == 1")
-		c26MacArgs(c, f, "(*cbcCipher).readCipherPacketLeaky", ctc)
-		var lengthV, bsCall ssa.Value
-		for _, ci := range calls(f, func(n string) bool { return strings.HasSuffix(n, ").Uint32") }) {
-			lengthV = callValue(ci)
-		}
-		for _, ci := range calls(f, nameIs("invoke:(crypto/cipher.BlockMode).BlockSize")) {
-			bsCall = callValue(ci)
-		}
-		var maxU *ssa.Function = c.fnOpt("ssh", "maxUInt32")
-		if lengthV == nil || bsCall == nil || maxU == nil {
-			c.fail("C26.bounds", "(*cbcCipher).readCipherPacketLeaky", f, "anchors not found")
-		} else {
-			b := &boundsCtx{fn: f, tracked: func(p string) bool { return p == "c.packetData" }}
-			n := 0
-			for _, L := range lengths {
-				for _, P := range pads {
-					for _, BS := range []int64{8, 16} {
-						for _, M := range []int64{0, 20, 32} {
-							e := newEnv()
-							e.bind(lengthV, L)
-							e.bind(bsCall, BS)
-							e.bindField(f, "cbcCipher", "macSize", M)
-							e.bindNilTests(f, func(v ssa.Value) bool { return isField(v, "cbcCipher", "mac") }, M == 0)
-							// firstBlock[4] : index 4 of a slice of packetData
-							e.bindIndexLoads(f, func(base ssa.Value) bool { return accessPath(sliceBase(base)) == "c.packetData" }, 4, P)
-							// maxUInt32(a, b) summary: max of its evaluated arguments
-							for _, ci := range callsNamed(f, "ssh.maxUInt32") {
-								a0, ok0 := e.eval(ci.Common().Args[0])
-								a1, ok1 := e.eval(ci.Common().Args[1])
-								if ok0 && ok1 {
-									m := a0
-									if a1 > m {
-										m = a1
+							for _, K := range []int64{0, big} {
+								for _, authOK := range []bool{true, false} {
+									if !authOK && !(rd.aead || M > 0) {
+										continue
 									}
-									e.bind(callValue(ci), m)
-								}
-							}
-							allInstrs(f, func(in ssa.Instruction) {
-								if cc, ok := in.(*ssa.Call); ok && calleeName(&cc.Call) == "builtin:cap" {
-									e.bind(cc, 0)
-								}
-							})
-							e.solve(f)
-							b.e = e
-							b.check(fmt.Sprintf("length=%d padding=%d blockSize=%d macSize=%d", L, P, BS, M))
-							c26Make(c, f, e, maxPacket+4+64, b, fmt.Sprintf("length=%d", L))
-							n++
-						}
-					}
-				}
-			}
-			c26Report(c, "(*cbcCipher).readCipherPacketLeaky", f, b, n)
-			// maxUInt32 really is max
-			okMax := true
-			for _, tc := range [][2]int64{{8, 16}, {16, 8}, {16, 16}} {
-				e := newEnv()
-				e.bind(maxU.Params[0], tc[0])
-				e.bind(maxU.Params[1], tc[1])
-				e.solve(maxU)
-				want := tc[0]
-				if tc[1] > want {
-					want = tc[1]
-				}
-				for _, r := range returnsOf(maxU) {
-					if e.reach[r.Block()] {
-						if v, ok := e.eval(r.Results[0]); !ok || v != want {
-							okMax = false
-						}
-					}
-				}
-			}
-			c.check(okMax, "C26.bounds", "maxUInt32 summary", maxU, "maxUInt32 returns the larger argument (summary used by the CBC evaluation)", "maxUInt32 no longer returns the larger argument")
-		}
-	}
-	// ---------------- chacha20-poly1305
-	if f := c.fn("ssh", "(*chacha20Poly1305Cipher).readCipherPacket"); f != nil {
-		ver := callsNamed(f, "internal/poly1305.Verify")
-		pass := callSuccess(ver, 0, isTrue)
-		c26Auth(c, f, "(*chacha20Poly1305Cipher).readCipherPacket", newEnv(), pass, "poly1305.Verify(...) == true")
-		// decryption of the payload only after verification: XORKeyStream whose destination is a slice of c.buf
-		var dec []ssa.Instruction
-		for _, ci := range calls(f, func(n string) bool { return strings.HasSuffix(n, ").XORKeyStream") }) {
-			if accessPath(sliceBase(ci.Common().Args[1])) == "c.buf" {
-				dec = append(dec, ci)
-			}
-		}
-		c.mustCross("C26.verify-then-decrypt", "(*chacha20Poly1305Cipher).readCipherPacket", f, dec, pass, "poly1305.Verify == true")
-		var lengthV ssa.Value
-		for _, ci := range calls(f, func(n string) bool { return strings.HasSuffix(n, ").Uint32") }) {
-			lengthV = callValue(ci)
-		}
-		if lengthV == nil || len(ver) != 1 {
-			c.fail("C26.bounds", "(*chacha20Poly1305Cipher).readCipherPacket", f, "anchors not found")
-		} else {
-			b := &boundsCtx{fn: f, tracked: func(p string) bool { return p == "c.buf" }}
-			n := 0
-			for _, L := range lengths {
-				for _, P := range pads {
-					e := newEnv()
-					e.bind(lengthV, L)
-					e.bind(callValue(ver[0]), 1)
-					// plain := c.buf[4:contentEnd]; padding := plain[0]
-					e.bindIndexLoads(f, func(base ssa.Value) bool {
-						sl, ok := base.(*ssa.Slice)
-						return ok && accessPath(sliceBase(sl)) == "c.buf"
-					}, 0, P)
-					allInstrs(f, func(in ssa.Instruction) {
-						if cc, ok := in.(*ssa.Call); ok && calleeName(&cc.Call) == "builtin:cap" {
-							e.bind(cc, 0)
-						}
-						// len(plain) where plain is a slice of c.buf: computed below through lenOf
-					})
-					e.solve(f)
-					b.e = e
-					// bind len(x) calls on slices of the buffer using lenOf, then re-solve
-					changed := false
-					allInstrs(f, func(in ssa.Instruction) {
-						if cc, ok := in.(*ssa.Call); ok && calleeName(&cc.Call) == "builtin:len" {
-							if sl, ok := cc.Call.Args[0].(*ssa.Slice); ok && accessPath(sliceBase(sl)) == "c.buf" {
-								if v, ok := b.lenOf(sl, cc, 0); ok {
-									e.bind(cc, v)
-									changed = true
+									cs := c26case{L: L, P: P, M: M, BS: BS, etm: etm, K: K, authOK: authOK, initCap: initCap}
+									acc.judge(c26run(f, cs, limit), rd, maxPacket)
 								}
 							}
 						}
-					})
-					if changed {
-						e.solve(f)
 					}
-					b.check(fmt.Sprintf("length=%d padding=%d", L, P))
-					c26Make(c, f, e, maxPacket+4+16, b, fmt.Sprintf("length=%d", L))
-					n++
 				}
 			}
-			c26Report(c, "(*chacha20Poly1305Cipher).readCipherPacket", f, b, n)
 		}
+		// truncated streams: the i-th read from the connection fails
+		for _, L := range []int64{12, 28, 1020} {
+			for _, M := range macs {
+				for _, BS := range bss {
+					for fr := 1; fr <= 4; fr++ {
+						cs := c26case{L: L, P: 4, M: M, BS: BS, K: 0, authOK: true, failRead: fr, initCap: initCap}
+						acc.judge(c26run(f, cs, limit), rd, maxPacket)
+					}
+				}
+			}
+		}
+		acc.report(c, rd, f)
 	}
+
 	// ---------------- framing level
 	if f := c.fn("ssh", "(*connectionState).readPacket"); f != nil {
-		c.check(len(panicsOf(f)) == 0, "C26.no-panic", "(*connectionState).readPacket", f, "no explicit panic", "explicit panic in the packet read path")
-		// empty payload -> error: with len(packet)==0 and err==nil the returned error is non-nil
-		var call *ssa.Call
-		for _, ci := range calls(f, func(n string) bool { return strings.HasSuffix(n, ".readCipherPacket") }) {
-			call, _ = ci.(*ssa.Call)
-		}
-		okEmpty := false
-		if call != nil {
-			var pv ssa.Value
-			for _, v := range resultN(call, 0) {
-				pv = v
+		// no explicit panic in the read path: readPacket and the private helpers it is made of
+		var bad ssa.Instruction
+		n := 0
+		pieces := map[*ssa.Function]bool{f: true}
+		for _, g := range deepFuncs(f) {
+			if g != f && !c26privateHelper(c, f, g, pieces) {
+				continue
 			}
-			e := newEnv()
-			e.bindLen(f, pv, 0)
-			for _, ev := range errResult(call) {
-				e.bindNilTests(f, func(v ssa.Value) bool { return v == ev }, true)
-			}
-			e.solve(f)
-			okEmpty = true
-			for _, r := range returnsOf(f) {
-				if !e.reach[r.Block()] {
-					continue
-				}
-				// the returned error must not be the (nil) cipher error itself
-				for _, l := range phiLeaves(r.Results[1]) {
-					if l.pred != nil && !e.reach[l.pred] {
-						continue
-					}
-					for _, ev := range errResult(call) {
-						if l.val == ev && (l.pred == nil || e.edgeFeasible(l.pred, l.phi.Block())) {
-							okEmpty = false
-						}
-					}
-					if isNilConst(l.val) {
-						okEmpty = false
-					}
+			pieces[g] = true
+			n++
+			for _, p := range panicsOf(g) {
+				if bad == nil {
+					bad = p
 				}
 			}
 		}
-		c.check(okEmpty, "C26.empty-payload", "(*connectionState).readPacket", f, "a zero-length payload is turned into an error", "a zero-length payload can be returned without error (decode would index packet[0])")
-	}
-}
-
-// c26Auth: every non-nil payload return crosses the authenticity check.
-func c26Auth(c *Ctx, f *ssa.Function, name string, e *penv, pass []edge, what string) {
-	targets := valueReturns(f, 0)
-	if len(pass) == 0 {
-		c.fail("C26.auth", name, f, "authenticity check not found: "+what)
-		return
-	}
-	cut := e.cuts(f)
-	cut.addAll(pass)
-	r := reach([]*ssa.BasicBlock{f.Blocks[0]}, cut)
-	for _, t := range targets {
-		if r[t.Block()] {
-			c.fail("C26.auth", name, t, "a payload can be returned without passing "+what)
-			return
+		if bad != nil {
+			c.fail("C26.no-panic", "(*connectionState).readPacket", bad, "explicit panic in the packet read path")
+		} else {
+			c.ok("C26.no-panic", "(*connectionState).readPacket", f, fmt.Sprintf("no explicit panic (%d function(s) of the read path)", n))
 		}
-	}
-	c.ok("C26.auth", name, f, fmt.Sprintf("all %d payload returns lie behind %s", len(targets), what))
-}
-
-func c26MacArgs(c *Ctx, f *ssa.Function, name string, ctc []ssa.CallInstruction) {
-	if len(ctc) != 1 {
-		c.fail("C26.auth-args", name, f, fmt.Sprintf("expected one ConstantTimeCompare, found %d", len(ctc)))
-		return
-	}
-	a := ctc[0].Common().Args
-	p0, p1 := accessPath(sliceBase(a[0])), accessPath(sliceBase(a[1]))
-	okArgs := (strings.HasSuffix(p0, ".macResult") && strings.HasSuffix(p1, ".packetData")) || (strings.HasSuffix(p1, ".macResult") && strings.HasSuffix(p0, ".packetData"))
-	// macResult must be the Sum of the running MAC
-	sumOK := false
-	for _, st := range storesToPathSuffix(f, ".macResult") {
-		if call, ok := st.Val.(*ssa.Call); ok && calleeName(&call.Call) == "invoke:(hash.Hash).Sum" && precedes(st, ctc[0]) {
-			sumOK = true
-		}
-	}
-	c.check(okArgs && sumOK, "C26.auth-args", name, ctc[0], "compares mac.Sum(...) with the MAC bytes received in the packet buffer", "ConstantTimeCompare does not compare the computed MAC (mac.Sum) with the received MAC bytes")
-}
-
-func storesToPathSuffix(f *ssa.Function, suffix string) []*ssa.Store {
-	var out []*ssa.Store
-	allInstrs(f, func(in ssa.Instruction) {
-		if st, ok := in.(*ssa.Store); ok && strings.HasSuffix(accessPath(st.Addr), suffix) {
-			out = append(out, st)
-		}
-	})
-	return out
-}
-
-// c26Make: every reachable make([]byte, n) has an evaluable n <= limit.
-func c26Make(c *Ctx, f *ssa.Function, e *penv, limit int64, b *boundsCtx, desc string) {
-	allInstrs(f, func(in ssa.Instruction) {
-		mk, ok := in.(*ssa.MakeSlice)
-		if !ok || !e.reach[mk.Block()] {
-			return
-		}
-		n, ok := e.eval(mk.Len)
-		if !ok {
-			return
-		}
-		if _, isConst := mk.Len.(*ssa.Const); isConst {
-			return
-		}
-		b.checked++
-		if n < 0 || n > limit+80 {
-			if b.firstBad == "" {
-				b.firstBad = fmt.Sprintf("%s: make([]byte, %d) exceeds the packet size limit", desc, n)
-				b.badAt = mk
+		// empty payload -> error: whatever the cipher returns, (empty payload, nil error) and
+		// (empty payload, error) both end in a non-nil error, without indexing the payload
+		failMsg, undec := "", ""
+		for _, cs := range []c26case{{PL: 0, authOK: true}, {PL: 0, cipherErr: true, authOK: true}} {
+			s := c26run(f, cs, limit)
+			switch {
+			case s.end == "undecided":
+				if undec == "" {
+					undec = "the read path does not evaluate for an empty payload: " + s.why
+				}
+			case s.end == "panic" || s.problem != "":
+				if failMsg == "" {
+					failMsg = "an empty payload is indexed (decode would index packet[0]) or the read path panics"
+				}
+			case s.end != "return" || !s.errOK:
+				if undec == "" {
+					undec = "the error returned for an empty payload does not evaluate"
+				}
+			case s.errNil:
+				if failMsg == "" {
+					failMsg = "a zero-length payload can be returned without error (decode would index packet[0])"
+				}
 			}
 		}
-	})
+		switch {
+		case failMsg != "":
+			c.fail("C26.empty-payload", "(*connectionState).readPacket", f, failMsg)
+		case undec != "":
+			c.undecided("C26.empty-payload", "(*connectionState).readPacket", f, undec)
+		default:
+			c.ok("C26.empty-payload", "(*connectionState).readPacket", f, "a zero-length payload is turned into an error (read path interpreted with the cipher returning an empty payload, helpers followed)")
+		}
+	}
 }
 
-func c26Report(c *Ctx, name string, f *ssa.Function, b *boundsCtx, n int) {
-	if b.firstBad != "" {
-		c.fail("C26.bounds", name, b.badAt, b.firstBad)
+type c26reader struct {
+	name               string
+	macs, bss          []int64
+	etm                bool
+	aead               bool // authenticated in every configuration
+	decryptAfterVerify bool
+}
+
+// c26privateHelper: g is a piece of f — an unexported method of f's receiver
+// type, or an unexported function whose static callers are all pieces of f.
+func c26privateHelper(c *Ctx, f, g *ssa.Function, pieces map[*ssa.Function]bool) bool {
+	if g.Object() == nil || g.Object().Exported() {
+		return false
+	}
+	if recvF, recvG := f.Signature.Recv(), g.Signature.Recv(); recvF != nil && recvG != nil && types.Identical(recvF.Type(), recvG.Type()) {
+		return true
+	}
+	cs := c.callersOf(g)
+	for _, ci := range cs {
+		if !pieces[ci.Parent()] {
+			return false
+		}
+	}
+	return len(cs) > 0
+}
+
+// c26acc collects, per rule, the first grid point at which it fails.
+type c26acc struct {
+	runs, accepted, checked, skipped, rejectedBig, authRuns int
+	auth, authArgs, bounds, maxpkt, payload, order          string
+	authAt, argsAt, boundsAt, maxAt, payAt, orderAt         ssa.Instruction
+	undecided                                               string
+}
+
+// c26checked: an authenticity primitive was evaluated on this path.
+func c26checked(evs []c26ev) bool {
+	for _, e := range evs {
+		switch e.kind {
+		case "compare", "open", "verify":
+			return true
+		}
+	}
+	return false
+}
+
+func c26first(msg *string, at *ssa.Instruction, where ssa.Instruction, format string, a ...any) {
+	if *msg == "" {
+		*msg = fmt.Sprintf(format, a...)
+		*at = where
+	}
+}
+
+func (a *c26acc) judge(s *c26sim, rd c26reader, maxPacket int64) {
+	cs := s.cs
+	a.runs++
+	a.checked += s.checked
+	a.skipped += s.skipped
+	authenticated := rd.aead || cs.M > 0
+	if s.end == "undecided" || s.end == "stop" || s.end == "cutoff" {
+		if a.undecided == "" {
+			a.undecided = fmt.Sprintf("%v: the reader does not evaluate: %s", cs, s.why)
+		}
 		return
 	}
-	if b.checked < n/4 {
-		c.fail("C26.bounds", name, f, fmt.Sprintf("only %d slice/make obligations could be evaluated over %d grid points (%d not evaluable): the rule lost its anchors", b.checked, n, b.skipped))
+	if s.problem != "" {
+		c26first(&a.bounds, &a.boundsAt, s.problemAt, "%v: %s", cs, s.problem)
+	}
+	if s.end == "panic" {
+		c26first(&a.bounds, &a.boundsAt, s.root.Blocks[0].Instrs[0], "%v: an explicit panic is reached", cs)
 		return
 	}
-	c.ok("C26.bounds", name, f, fmt.Sprintf("%d slice/make obligations evaluated in range over %d grid points (%d expressions not evaluable and skipped)", b.checked, n, b.skipped))
+	if s.end != "return" || s.lastRet == nil || len(s.lastRet.Results) != 2 {
+		return
+	}
+	if !s.errOK {
+		if a.undecided == "" {
+			a.undecided = fmt.Sprintf("%v: the returned error does not evaluate", cs)
+		}
+		return
+	}
+	accepted := !s.payNil
+	var at ssa.Instruction = s.lastRet
+	if s.errNil {
+		switch {
+		case authenticated && !cs.authOK && len(s.events) > 0 && c26checked(s.events):
+			c26first(&a.auth, &a.authAt, at, "%v: no error is returned although the authenticity check (MAC comparison / AEAD open / Poly1305 verification) fails", cs)
+		case s.readFailed:
+			c26first(&a.auth, &a.authAt, at, "%v: no error is returned although a read from the connection failed (truncated stream)", cs)
+		case cs.L > maxPacket:
+			c26first(&a.maxpkt, &a.maxAt, at, "%v: no error is returned for a declared length above maxPacket", cs)
+		}
+	}
+	if !accepted {
+		if cs.L > maxPacket {
+			a.rejectedBig++
+		}
+		return
+	}
+	a.accepted++
+	if cs.L > maxPacket {
+		c26first(&a.maxpkt, &a.maxAt, at, "%v: a packet with a declared length above maxPacket is accepted", cs)
+	}
+	if s.readFailed {
+		c26first(&a.auth, &a.authAt, at, "%v: a payload is returned although a read from the connection failed (truncated stream)", cs)
+	}
+	// authenticity
+	var good, anyCheck, passed bool
+	firstPass := -1
+	for i, e := range s.events {
+		switch e.kind {
+		case "compare":
+			anyCheck = true
+			x, y := e.a, e.b
+			if s.sums[y.r.obj] {
+				x, y = y, x
+			}
+			if e.pass && s.sums[x.r.obj] && y.hasIP && y.ip == 4+cs.L && y.n == x.n && x.n > 0 && (cs.M == 0 || x.n == cs.M) {
+				// a one-shot tag must have been computed over length and ciphertext
+				if m, oneShot := s.sumMsg[x.r.obj]; !oneShot || (m.ok && m.hasIP && m.ip == 0 && m.n == 4+cs.L) {
+					good = true
+				}
+			}
+		case "open":
+			anyCheck = true
+			if e.pass && e.a.hasIP && e.a.ip == 4 && e.a.n == cs.L+c26tagSize && e.b.hasIP && e.b.ip == 0 && e.b.n == 4 {
+				good = true
+			}
+		case "verify":
+			anyCheck = true
+			if e.pass && e.a.hasIP && e.a.ip == 4+cs.L && e.b.hasIP && e.b.ip == 0 && e.b.n == 4+cs.L {
+				good = true
+			}
+		default:
+			continue
+		}
+		if e.pass {
+			passed = true
+			if firstPass < 0 {
+				firstPass = i
+			}
+		}
+	}
+	if authenticated {
+		a.authRuns++
+		switch {
+		case !cs.authOK:
+			c26first(&a.auth, &a.authAt, at, "%v: a payload is returned although the authenticity check (MAC comparison / AEAD open / Poly1305 verification) fails", cs)
+		case !anyCheck || !passed:
+			c26first(&a.auth, &a.authAt, at, "%v: a payload is returned without passing an authenticity check (subtle.ConstantTimeCompare == 1, aead.Open without error, poly1305.Verify)", cs)
+		case !good:
+			c26first(&a.authArgs, &a.argsAt, at, "%v: the authenticity check that guards the payload does not compare the computed MAC with the MAC bytes received after the packet / open the whole received buffer with the length prefix as additional data / verify the received tag over length and ciphertext", cs)
+		}
+	}
+	// the payload is the one written at that position
+	if cs.authOK && !s.readFailed {
+		if !s.pay.ok || !s.pay.hasIP {
+			if a.undecided == "" {
+				a.undecided = fmt.Sprintf("%v: the returned payload is not a known part of the received packet", cs)
+			}
+		} else if s.pay.ip != 5 || s.pay.n != cs.L-cs.P-1 {
+			c26first(&a.payload, &a.payAt, at, "%v: bytes [%d:%d) of the packet are returned, the payload is [5:%d)", cs, s.pay.ip, s.pay.ip+s.pay.n, 4+cs.L-cs.P)
+		}
+	}
+	// decryption only after verification (chacha20-poly1305)
+	if rd.decryptAfterVerify && s.pay.ok && s.pay.hasIP {
+		covered := s.pay.ip
+		for i, e := range s.events {
+			if e.kind != "xor" || !e.a.hasIP || e.a.ip+e.a.n <= 4 {
+				continue
+			}
+			if i < firstPass || firstPass < 0 {
+				c26first(&a.order, &a.orderAt, e.at, "%v: packet content is decrypted before its tag is verified", cs)
+			}
+			if e.a.ip <= covered && e.a.ip+e.a.n > covered {
+				covered = e.a.ip + e.a.n
+			}
+		}
+		if covered < s.pay.ip+s.pay.n {
+			c26first(&a.order, &a.orderAt, at, "%v: the returned payload is not decrypted after the tag verification (no XORKeyStream over it behind poly1305.Verify == true)", cs)
+		}
+	}
+}
+
+func (a *c26acc) report(c *Ctx, rd c26reader, f *ssa.Function) {
+	emit := func(rule, msg string, at ssa.Instruction, okDetail string) {
+		switch {
+		case msg != "":
+			if at == nil {
+				c.fail(rule, rd.name, f, msg)
+			} else {
+				c.fail(rule, rd.name, at, msg)
+			}
+		case a.undecided != "":
+			c.undecided(rule, rd.name, f, a.undecided)
+		case a.accepted == 0:
+			c.fail(rule, rd.name, f, fmt.Sprintf("no packet of the %d evaluated grid points is accepted: the rule lost its anchors", a.runs))
+		default:
+			c.ok(rule, rd.name, f, okDetail)
+		}
+	}
+	what := "the authenticity check — subtle.ConstantTimeCompare(computed MAC, received MAC) == 1, aead.Open's nil error or poly1305.Verify == true"
+	emit("C26.auth", a.auth, a.authAt, fmt.Sprintf("no payload is returned when %s fails or a read fails; every accepted packet passed it (%d evaluations, %d accepted)", what, a.runs, a.accepted))
+	emit("C26.auth-args", a.authArgs, a.argsAt, "the check that guards the payload is on the computed MAC and the MAC bytes received behind the packet (AEAD: the whole received buffer with the length prefix as additional data; Poly1305: the received tag over length and ciphertext)")
+	emit("C26.maxpacket", a.maxpkt, a.maxAt, fmt.Sprintf("every declared length above maxPacket is rejected (%d evaluations)", a.rejectedBig))
+	if a.bounds == "" && a.undecided == "" && a.checked < a.runs/4 {
+		a.bounds = fmt.Sprintf("only %d slice/crypto-call obligations could be evaluated over %d grid points (%d not evaluable): the rule lost its anchors", a.checked, a.runs, a.skipped)
+	}
+	emit("C26.bounds", a.bounds, a.boundsAt, fmt.Sprintf("%d slice / make / read-size / XORKeyStream / CryptBlocks obligations in range over %d grid points (%d expressions not evaluable and skipped)", a.checked, a.runs, a.skipped))
+	emit("C26.payload", a.payload, a.payAt, "an accepted packet returns bytes [5 : 4+length-padding) of what was received")
+	if rd.decryptAfterVerify {
+		emit("C26.verify-then-decrypt", a.order, a.orderAt, "packet content is decrypted only behind poly1305.Verify == true, and the returned payload is")
+	}
 }
